@@ -1,5 +1,5 @@
 (* RespellFacts.v -- C10: proofs about the respelling relations of Respell.v *)
-From CssV Require Import Base Regex RegexFacts RegexTotal Gen.TokTables Gen.PyTables Tokenizer Quote Gen.Quote Respell.
+From CssV Require Import Base Regex RegexFacts RegexTotal Gen.TokTables Gen.PyTables Tokenizer Respell.
 
 (* ------------------------------------------------------------------ the tie to the generated regexes *)
 Lemma re_unicodesub_is : re_unicodesub = my_unicodesub.
@@ -402,9 +402,8 @@ Theorem quote_kind_irrelevant_lemma : forall v ty0 raw0 l c ty1 raw1 l1 c1,
   stringtokenvalue (Some (mkTok ty1 raw1 (quoted 39 v) l1 c1)) = Ok (Some v) /\
   hstringvalue (quoted 34 v) = Ok v /\ hstringvalue (quoted 39 v) = Ok v.
 Proof.
-  intros v ty0 raw0 l c ty1 raw1 l1 c1 Hn. unfold stringtokenvalue, hstringvalue. cbn [val py_index0 quoted].
-  change ([92%N] ++ [34%N]) with [92%N; 34%N]. change ([92%N] ++ [39%N]) with [92%N; 39%N].
-  fold (quoted 34 v). fold (quoted 39 v).
+  intros v ty0 raw0 l c ty1 raw1 l1 c1 Hn. unfold stringtokenvalue, hstringvalue. cbn [val].
+  unfold quoted at 1 3 5 7. cbn [py_index0]. fold (quoted 34 v). fold (quoted 39 v).
   rewrite !unquote_quoted by (auto; discriminate). auto.
 Qed.
 
